@@ -679,6 +679,10 @@ void dr_pi_dag_copy_and_prune_nodes(dr_pi_dag * G_, dr_pi_dag * G,
 	    to->subgraphs_begin_offset = 0;
 	    to->subgraphs_end_offset   = 0;
 	  }
+	} else {
+	  /* already collapsed in G: do not keep offsets into G */
+	  to->subgraphs_begin_offset = 0;
+	  to->subgraphs_end_offset   = 0;
 	}
       }
     }
